@@ -204,20 +204,6 @@ def firstDiff (a b : List String) : Option String :=
 /-- the invariant of the theorems, decided on a concrete state -/
 def treeOk (t : HTree) : Bool := wfb t && isTree t.graphV t.graphE
 
-/-- junction bookkeeping: the junction map lists exactly the junction-carrying nodes, no junction is
-    carried twice, no junction reported deleted is still carried -/
-def jinvb (s : Imp) : Bool :=
-  let js := s.t.junctionsOf
-  nodupNat js &&
-  s.junctions.all (fun p => match s.t.node? p.2 with
-    | some n => n.junction == some p.1
-    | none => false) &&
-  s.t.nodes.all (fun n => match n.junction with
-    | some j => s.junctions.contains (j, n.id)
-    | none => true) &&
-  s.delJ.all (fun j => !js.contains j) &&
-  s.roots.all (fun j => js.contains j)
-
 def treePreserving (kind : String) : Bool :=
   ["nop", "split", "contract", "setpt", "rzle", "move"].contains kind
 
